@@ -157,7 +157,8 @@ def make_probe(step=False):
             return copy.deepcopy(self.parameters['schema'])
 
         def initial_state(self, config=None):
-            return copy.deepcopy(self.parameters.get('own_initial', {}))
+            # (the stored dictionary itself: a composite that merges it with others must not change it)
+            return self.parameters.get('own_initial', {})
 
         def next_update(self, timestep, states):
             return {}
@@ -347,10 +348,14 @@ def run(spec):
         for k in vp[:-1]:
             node = node.setdefault(k, {})
         node[vp[-1]] = expect_init.setdefault(ap, 70000 + j)
+    own_before = copy.deepcopy(own)
     procs, steps, tops = parts(own_initial=own)
     comp = Composite({'processes': procs, 'steps': steps, 'topology': tops})
     try:
         st = flat(comp.initial_state() or {})
+        V.check('initial_state_placement', own == own_before,
+                lambda: ('Composite.initial_state() changed the dictionary a process returned from its own initial_state()',
+                         repr(own_before)[:300], repr(own)[:300]))
         bad = {('/'.join(ap)): (v, st.get(ap, 'MISSING')) for ap, v in expect_init.items() if st.get(ap, 'MISSING') != v}
         V.check('initial_state_placement', not bad,
                 lambda: ('Composite.initial_state() does not place a process\'s own value at the node its port is wired to (expected, got)', bad))
